@@ -222,3 +222,17 @@ def write_replay(prop, clause: Clause, failure: Failure):
         'replay': f'./check {prop} --replay {os.path.relpath(path, VERIF)}',
     }, f, indent=1)
   return os.path.relpath(path, VERIF)
+
+
+def rerun_replay(run_fn):
+  """Replay for bounded clauses: re-evaluates the clause (real functions on the same enumerated inputs) and reports
+  whether the recorded obligation fails again.  The witness carries _key/_tier/_seed (added by the cli)."""
+  def replay(w):
+    w = w if isinstance(w, dict) else {}
+    ctx = Ctx(tier=w.get('_tier', 'quick'), seed=int(w.get('_seed', 0)), prop=w.get('_prop', ''))
+    o = run_fn(ctx)
+    hits = [f for f in o.failures if f.key == w.get('_key') or f.obligation == w.get('_obligation')]
+    if hits:
+      return True, f're-evaluated on the real code: obligation fails again: {hits[0].obligation}: {hits[0].detail[:500]}'
+    return False, 're-evaluated on the real code: obligation holds'
+  return replay
